@@ -5535,12 +5535,20 @@ evdns_cache_lookup(struct evdns_base *base,
 	cache = SPLAY_FIND(evdns_tree, &base->cache_root, &find);
 	if (cache) {
 		struct evutil_addrinfo *e = cache->ai;
+		const char *cname = NULL;
 		log(EVDNS_LOG_DEBUG, "Found cache for %s", cache->name);
+		/* the canonical name is kept on one entry of the cached list
+		 * only; an existing record might not have it at all */
 		for (; e; e = e->ai_next) {
+			if (e->ai_canonname) {
+				cname = e->ai_canonname;
+				break;
+			}
+		}
+		for (e = cache->ai; e; e = e->ai_next) {
 			struct evutil_addrinfo *ai_new;
-			// an existing record might not have the canonname
-			if (want_cname && e->ai_canonname == NULL)
-				continue;
+			if (want_cname && cname == NULL)
+				break;
 			++n_found;
 			if ((e->ai_addr->sa_family == AF_INET && f == PF_INET6) ||
 				(e->ai_addr->sa_family == AF_INET6 && f == PF_INET))
@@ -5550,8 +5558,10 @@ evdns_cache_lookup(struct evdns_base *base,
 				n_found = 0;
 				goto out;
 			}
-			if (want_cname) {
-				ai_new->ai_canonname = mm_strdup(e->ai_canonname);
+			/* as in the answer that was cached, the first entry
+			 * carries the name */
+			if (want_cname && ai == NULL) {
+				ai_new->ai_canonname = mm_strdup(cname);
 			}
 			{
 				struct evutil_addrinfo *p; /* may be a TCP+UDP pair */
